@@ -274,14 +274,293 @@ def render_block(prelude, block, K):
             f"def corr{K} (evs : List (Event α)) : α :=\n" + "\n".join(lets) + f"\n  {target}_\n")
 
 
+# ---------------------------------------------------------------------------------------------------------------
+# second fragment: the scalar decision logic around the correlators
+#   __init__             : the table `cumulant_factor_`
+#   __cumulant_flow      : which combination of <<2>>, <<4>>, <<6>> is handed to __flow_from_cumulant for k = 2, 4, 6
+#   __flow_from_cumulant / __flow_from_cumulant_differential : the `imaginary` decision tables
+# They are straight-line scalar code with if-chains; the translator executes them symbolically (state: name -> Lean
+# term, an `if` becomes `if c then .. else ..` on every name the branches disagree on).  `x ** (a / self.k_)` becomes
+# the abstract root `root x k` (a = 1) / `rootp x a k`, `float("nan")` the `Flow.nan` outcome.
+
+def _method(source, name):
+    tree = ast.parse(source)
+    for c in tree.body:
+        if isinstance(c, ast.ClassDef) and c.name == "QCumulantFlow":
+            for f in c.body:
+                if isinstance(f, ast.FunctionDef) and f.name == name:
+                    return f
+    raise Untranslatable(name + " not found")
+
+
+def _strip_doc(body):
+    if body and isinstance(body[0], ast.Expr) and isinstance(getattr(body[0], "value", None), ast.Constant):
+        return body[1:]
+    return body
+
+
+def _is_self_attr(n, attr):
+    return isinstance(n, ast.Attribute) and n.attr == attr and isinstance(n.value, ast.Name) and n.value.id == "self"
+
+
+NAN = "<nan>"
+
+
+class Scalar:
+    """symbolic execution of the scalar decision functions; `rootp` selects the three-argument root"""
+
+    def __init__(self, rootp):
+        self.rootp = rootp
+
+    def e(self, n, st):
+        if isinstance(n, ast.Name):
+            if n.id in st:
+                return st[n.id]
+            raise Untranslatable("unknown name " + n.id)
+        if isinstance(n, ast.Constant):
+            return lit(n.value)
+        if isinstance(n, ast.Call) and isinstance(n.func, ast.Name) and n.func.id == "float" and len(n.args) == 1 \
+                and isinstance(n.args[0], ast.Constant) and str(n.args[0].value).lower() == "nan":
+            return NAN
+        if isinstance(n, ast.Subscript) and _is_self_attr(n.value, "cumulant_factor_"):
+            ix = n.slice
+            if _is_self_attr(ix, "k_"):
+                return "(factor k)"
+            if isinstance(ix, ast.Constant) and isinstance(ix.value, int):
+                return f"(factor {ix.value})"
+            raise Untranslatable("index of cumulant_factor_: " + ast.unparse(ix))
+        if isinstance(n, ast.UnaryOp) and isinstance(n.op, ast.USub):
+            a = self.e(n.operand, st)
+            if a == NAN:
+                raise Untranslatable("arithmetic on nan")
+            return f"(-{a})"
+        if isinstance(n, ast.BinOp):
+            if isinstance(n.op, ast.Pow):
+                a = self.e(n.left, st)
+                r = n.right
+                if isinstance(r, ast.BinOp) and isinstance(r.op, ast.Div) and isinstance(r.left, ast.Constant) \
+                        and isinstance(r.left.value, int) and r.left.value > 0 and _is_self_attr(r.right, "k_"):
+                    if self.rootp:
+                        return f"(rootp {a} {r.left.value} k)"
+                    if r.left.value == 1:
+                        return f"(root {a} k)"
+                raise Untranslatable("power " + ast.unparse(n)[:60])
+            sym = {ast.Add: "+", ast.Sub: "-", ast.Mult: "*", ast.Div: "/"}.get(type(n.op))
+            if sym is None:
+                raise Untranslatable("operator " + type(n.op).__name__)
+            a, b = self.e(n.left, st), self.e(n.right, st)
+            if NAN in (a, b):
+                raise Untranslatable("arithmetic on nan")
+            return f"({a} {sym} {b})"
+        raise Untranslatable("scalar expression " + ast.unparse(n)[:70])
+
+    def cond(self, t, st):
+        if isinstance(t, ast.Compare) and len(t.ops) == 1:
+            l, r, op = t.left, t.comparators[0], t.ops[0]
+            if _is_self_attr(l, "imaginary_") and isinstance(op, ast.Eq) and isinstance(r, ast.Constant) \
+                    and r.value in ("zero", "negative", "nan"):
+                return f"im = Imag.{r.value}"
+            if _is_self_attr(l, "k_") and isinstance(op, ast.Eq) and isinstance(r, ast.Constant) and isinstance(r.value, int):
+                return f"k = {r.value}"
+            sym = {ast.Lt: "<", ast.LtE: "≤", ast.Gt: ">", ast.GtE: "≥"}.get(type(op))
+            if sym:
+                return f"{self.e(l, st)} {sym} {self.e(r, st)}"
+        raise Untranslatable("condition " + ast.unparse(t)[:70])
+
+    def run(self, stmts, st):
+        st = dict(st)
+        for s in stmts:
+            if isinstance(s, ast.Assign) and len(s.targets) == 1 and isinstance(s.targets[0], ast.Name):
+                st[s.targets[0].id] = self.e(s.value, st)
+            elif isinstance(s, ast.If):
+                c = self.cond(s.test, st)
+                a, b = self.run(s.body, st), self.run(s.orelse, st)
+                if "<return>" in a or "<return>" in b:
+                    raise Untranslatable("return inside a branch")
+                for name in sorted(set(a) | set(b)):
+                    if name not in a or name not in b:
+                        raise Untranslatable(f"{name} assigned on one branch only")
+                    st[name] = a[name] if a[name] == b[name] else ("ite", c, a[name], b[name])
+            elif isinstance(s, ast.Return) and isinstance(s.value, ast.Name):
+                st["<return>"] = st[s.value.id]
+                break
+            elif isinstance(s, ast.Expr) and isinstance(s.value, ast.Constant):
+                continue
+            else:
+                raise Untranslatable("statement " + ast.unparse(s)[:60])
+        return st
+
+
+def _flow_term(v, ind):
+    pad = "  " * ind
+    if isinstance(v, tuple):
+        _, c, a, b = v
+        return f"{pad}if {c} then\n{_flow_term(a, ind + 1)}\n{pad}else\n{_flow_term(b, ind + 1)}"
+    return pad + (".nan" if v == NAN else f".val {v}")
+
+
+def render_flow_from_cumulant(source):
+    fn = _method(source, "__flow_from_cumulant")
+    args = [a.arg for a in fn.args.args]
+    if len(args) != 2:
+        raise Untranslatable("__flow_from_cumulant arguments")
+    st = Scalar(False).run(_strip_doc(fn.body), {args[1]: "cnk"})
+    if "<return>" not in st:
+        raise Untranslatable("__flow_from_cumulant returns nothing")
+    return ("/-- `__flow_from_cumulant` -/\n"
+            "def flowFromCumulant (root : α → Nat → α) (k : Nat) (im : Imag) (cnk : α) : Flow α :=\n"
+            + _flow_term(st["<return>"], 1) + "\n"), fn
+
+
+def render_dflow(source):
+    fn = _method(source, "__flow_from_cumulant_differential")
+    args = [a.arg for a in fn.args.args]
+    if len(args) != 3:
+        raise Untranslatable("__flow_from_cumulant_differential arguments")
+    st = Scalar(True).run(_strip_doc(fn.body), {args[1]: "cnk", args[2]: "dnk"})
+    if "<return>" not in st:
+        raise Untranslatable("__flow_from_cumulant_differential returns nothing")
+    return ("/-- `__flow_from_cumulant_differential` -/\n"
+            "def dflow (rootp : α → Nat → Nat → α) (k : Nat) (im : Imag) (cnk : α) (dnk : α) : Flow α :=\n"
+            + _flow_term(st["<return>"], 1) + "\n"), fn
+
+
+def render_factor(source):
+    fn = _method(source, "__init__")
+    table = None
+    for s in ast.walk(fn):
+        tgt = None
+        if isinstance(s, ast.AnnAssign):
+            tgt, val = s.target, s.value
+        elif isinstance(s, ast.Assign) and len(s.targets) == 1:
+            tgt, val = s.targets[0], s.value
+        if tgt is not None and _is_self_attr(tgt, "cumulant_factor_"):
+            if table is not None or not isinstance(val, ast.Dict):
+                raise Untranslatable("cumulant_factor_ is not one dict literal")
+            table = val
+    if table is None:
+        raise Untranslatable("cumulant_factor_ not found")
+    sc = Scalar(False)
+    rows = []
+    for kk, vv in zip(table.keys, table.values):
+        if not (isinstance(kk, ast.Constant) and isinstance(kk.value, int) and kk.value >= 0):
+            raise Untranslatable("cumulant_factor_ key")
+        rows.append((kk.value, sc.e(vv, {})))
+    if len({k for k, _ in rows}) != len(rows):
+        raise Untranslatable("duplicate cumulant_factor_ key")
+    body = "".join(f"  | {k} => {v}\n" for k, v in rows)
+    return ("/-- the table `cumulant_factor_` of `__init__` (orders missing from the table are never used: `__init__`\n"
+            "rejects them; here they read 0) -/\n"
+            "def factor (k : Nat) : α :=\n  match k with\n" + body + "  | _ => (nat 0)\n"), fn
+
+
+def render_cumulants(source):
+    """for K in 2,4,6: the argument handed to __flow_from_cumulant in the `self.k_ == K` branch of __cumulant_flow,
+    as a function of the three correlators"""
+    fn = _method(source, "__cumulant_flow")
+    body = _strip_doc(fn.body)
+    if len(body) != 1 or not isinstance(body[0], ast.If):
+        raise Untranslatable("__cumulant_flow is not one if-chain")
+    cur, branches = body[0], {}
+    while True:
+        t = cur.test
+        if not (isinstance(t, ast.Compare) and _is_self_attr(t.left, "k_") and isinstance(t.ops[0], ast.Eq)
+                and isinstance(t.comparators[0], ast.Constant)):
+            raise Untranslatable("__cumulant_flow dispatch is not `self.k_ == K`")
+        branches[t.comparators[0].value] = cur.body
+        if len(cur.orelse) == 1 and isinstance(cur.orelse[0], ast.If):
+            cur = cur.orelse[0]
+            continue
+        if cur.orelse and not all(isinstance(x, ast.Raise) for x in cur.orelse):
+            raise Untranslatable("__cumulant_flow: unexpected else branch")
+        break
+    if sorted(branches) != [2, 4, 6]:
+        raise Untranslatable(f"__cumulant_flow branches: {sorted(branches)}")
+    out = []
+    for K in (2, 4, 6):
+        env, arg = {}, None  # name -> ast of its defining expression | ("corr", K')
+        for s in branches[K]:
+            if isinstance(s, ast.Assign) and len(s.targets) == 1:
+                tg, v = s.targets[0], s.value
+                if isinstance(v, ast.Call) and isinstance(v.func, ast.Attribute) and v.func.attr.endswith("__flow_from_cumulant") \
+                        and len(v.args) == 1:
+                    if arg is not None:
+                        raise Untranslatable("two calls of __flow_from_cumulant in one branch")
+                    arg = (v.args[0], dict(env))
+                    continue
+                if isinstance(tg, ast.Tuple) and isinstance(v, ast.Call) and isinstance(v.func, ast.Attribute) \
+                        and v.func.attr.endswith("__calculate_corr"):
+                    kw = {k.arg: k.value for k in v.keywords}
+                    kk = kw.get("k", v.args[1] if len(v.args) > 1 else None)
+                    if not (isinstance(kk, ast.Constant) and kk.value in (2, 4, 6)) or not isinstance(tg.elts[0], ast.Name) \
+                            or not (v.args and isinstance(v.args[0], ast.Name) and v.args[0].id == "phi"):
+                        raise Untranslatable("call of __calculate_corr: " + ast.unparse(v))
+                    env[tg.elts[0].id] = ("corr", kk.value)
+                    for other in tg.elts[1:]:
+                        if isinstance(other, ast.Name):
+                            env[other.id] = ("opaque",)
+                    continue
+                if isinstance(tg, ast.Name):
+                    env[tg.id] = v
+                    continue
+            # anything else (error propagation, returns) does not feed the flow value
+        if arg is None:
+            raise Untranslatable(f"no call of __flow_from_cumulant in the k == {K} branch")
+        expr, env = arg
+
+        lets, done = [], {}
+
+        def resolve(name):
+            if name in done:
+                return
+            d = env.get(name)
+            if d is None or d == ("opaque",):
+                raise Untranslatable(f"k == {K}: the cumulant depends on {name}")
+            if isinstance(d, tuple):
+                done[name] = T(name + "_", SR)
+                lets.append(f"  let {name}_ : α := c{d[1]}")
+                return
+            for x in ast.walk(d):
+                if isinstance(x, ast.Name) and x.id not in ("np", "self"):
+                    resolve(x.id)
+            t = Tr(done).e(d)
+            if t.ty != SR:
+                raise Untranslatable(f"k == {K}: {name} is not a real scalar")
+            done[name] = t
+            lets.append(f"  let {name}_ : α := {t.term}")
+
+        for x in ast.walk(expr):
+            if isinstance(x, ast.Name):
+                resolve(x.id)
+        fin = Tr(done).e(expr)
+        if fin.ty != SR:
+            raise Untranslatable("cumulant is not a real scalar")
+        out.append(f"/-- what the `k_ == {K}` branch of `__cumulant_flow` hands to `__flow_from_cumulant`, from "
+                   f"`<<2>>`, `<<4>>`, `<<6>>` -/\n"
+                   f"def cum{K} (c2 c4 c6 : α) : α :=\n" + "".join(l + "\n" for l in lets) + f"  {fin.term}\n")
+    return "\n".join(out), fn
+
+
 def render(source):
     fn, prelude, blocks = extract(source)
     L = ["-- GENERATED by harness/translate/qcumulant.py from src/sparkx/flow/QCumulantFlow.py -- do not edit",
-         "import SparkxVerif.Core.Vec", "import SparkxVerif.Core.QCumulant", "", "namespace SparkxVerif.Gen.QCumulant",
+         "import SparkxVerif.Core.Vec", "import SparkxVerif.Core.QCumulant", "", "set_option linter.unusedVariables false", "", "namespace SparkxVerif.Gen.QCumulant",
          "open SparkxVerif SparkxVerif.Vec SparkxVerif.QC", "",
          "variable {α : Type} [Add α] [Sub α] [Mul α] [Div α] [Neg α] [NatCast α]", ""]
     for K in (2, 4, 6):
         L.append(render_block(prelude, blocks[K], K))
-    L.append("end SparkxVerif.Gen.QCumulant")
     regions = [dict(file="flow/QCumulantFlow.py", region="__calculate_corr", sha=pyexpr.src_hash(source, fn))]
+    cums, f1 = render_cumulants(source)
+    L.append(cums)
+    fac, f2 = render_factor(source)
+    L.append(fac)
+    L.append("variable [LT α] [DecidableLT α] [LE α] [DecidableLE α]\n")
+    ffc, f3 = render_flow_from_cumulant(source)
+    L.append(ffc)
+    dfl, f4 = render_dflow(source)
+    L.append(dfl)
+    L.append("end SparkxVerif.Gen.QCumulant")
+    for name, f in (("__cumulant_flow", f1), ("__init__", f2), ("__flow_from_cumulant", f3),
+                    ("__flow_from_cumulant_differential", f4)):
+        regions.append(dict(file="flow/QCumulantFlow.py", region=name, sha=pyexpr.src_hash(source, f)))
     return "\n".join(L) + "\n", regions
